@@ -25,8 +25,9 @@ func init() {
 		Rule: "word sets: ALL 2^15 subsets of the words of length <= 3 over {a,b} and ALL 2^13 subsets of the words of length <= 2 over {a,b,c} (exhaustive; thorough adds all 2^21 subsets of the words of length <= 2 over {a,b,c,d}), fixed families (empty set, {\"\"}, chains, full fans of 1..256 single-byte words, prefix x suffix products, the repo's test lists), seeded sets over alphabets of 1..256 bytes with words of 0..12 bytes and up to 5000 words in 7 sharing shapes, the repo dictionary (thorough); " +
 			"Add histories: ALL sequences of length <= 4 over {nil, \"\", a, aa, ab, b} x 3 caller behaviours (fresh slices / one reused buffer / buffer overwritten after Add) x 2 builder initialisations, and seeded histories with out-of-order and duplicate words interleaved. " +
 			"Builder life cycles (ONE Builder value used for several Dawgs in a row; after every build the Dawg it finished AND every earlier Dawg of the same Builder are compared with their own word sets in full again, and once more after a final Initialise): ALL ordered pairs of the 128 subsets of the words of length <= 2 over {a,b} (Finish, Initialise, build again), all ordered pairs of the 64 subsets of {\"\",a,aa,ab,b,ba} x 7 further ways from one build to the next (Initialise twice, a partial build abandoned with Initialise, a build abandoned right after a rejected Add, Finish without any word, the Builder value copied by assignment before / after Initialise with only the copy used afterwards, rejected Adds in the second build), chains of up to 19 contrasting fixed sets (0..512 words, fan-out 0..256), seeded scripts of 2..5 builds over related sets with junk Adds, abandoned builds, repeated Initialise and moved Builder values (thorough: all ordered triples of the 32 subsets of {a,aa,ab,b,ba}, one Builder through four thinned dictionaries); the Builder starts as new(Builder), as a copy by assignment of a zero value, initialised, or as a copy of an initialised value. Add / Finish after Finish without Initialise is forbidden by the documentation and never done. " +
+			"Construction routes (the SAME list given to dawg.New and, word by word, to a Builder; ARBITRARY lists with repeats and disorder, the model accepts a list iff every word is strictly greater than its predecessor, a nil and an empty slice being the same word; New has to return an error for every other list, the Builder has to reject exactly the additions the model rejects, the automata the two routes build for an accepted list are compared node by node, New must not rewrite the caller's list, and right after a rejected New the distinct words of the list, sorted, are built by New and checked in full): ALL lists of length <= 5 over {nil, \"\", a, aa, ab, b, ba, bb} (thorough: 6), the list handed to New in 4 ways (fresh slices / sub-slices of one backing buffer / a list with spare capacity holding further entries / slices overwritten after New returned; the nil list and the empty list); every subset of the 7 words of length <= 2 over {a,b} and every subset of <= 3 (thorough <= 6) of the 15 words of length <= 3 over {a,b}, sorted, with one change (any word of the universe or nil inserted at any place, two neighbours swapped); seeded lists of up to 2000 words and the fixed families with one of 12 planted changes (a word twice in a row, a word repeated later, neighbours swapped, a word moved to the front / to the end, the empty word twice as nil / empty in all 4 combinations, a proper prefix right after its extension, a word with its last byte lowered, a random word, an earlier word once more at the end, the list reversed, none) at the start / somewhere / at the end. " +
 			"Each built automaton is compared with the sorted list: NumberOfWords, Lookup rank of every member, Lookup of non-members (prefixes, extensions, one-byte edits, deletions, random), an unfolding of the node graph along the trie (finality, labels, numWords = size of the right language), node count (accessor and GobEncode header) = number of distinct right languages. " +
-			"non-trivial = a set with >= 2 words whose minimal automaton has fewer nodes than its trie (suffixes were actually merged), or a history with >= 1 rejected and >= 2 accepted additions, or a life cycle in which a build adds a non-empty word while an earlier non-empty Dawg of the same Builder is alive; distinct = hash of the word list / of the history / of the script",
+			"non-trivial = a set with >= 2 words whose minimal automaton has fewer nodes than its trie (suffixes were actually merged), or a history (also the Builder route of a list given to both routes) with >= 1 rejected and >= 2 accepted additions, or a life cycle in which a build adds a non-empty word while an earlier non-empty Dawg of the same Builder is alive; distinct = hash of the word list / of the history / of the script",
 		Assumptions: []string{
 			"oracle refdawg: sorted word list (rank = index), trie, minimal automaton size by hash-consing right languages (validated against explicit right languages and hand-computed sizes; harness code, no library code)",
 			"the verif-tagged accessor (*Dawg).VerifNodes reports the node graph faithfully (add-only file dawg/verif_export.go)",
@@ -41,6 +42,12 @@ func init() {
 			"sets_with_empty_word", "sets_alphabet>=128",
 			"life:scripts_completed", "life:earlier_non_empty_dawgs_rechecked", "life:dawgs_finished_by_a_reused_builder_checked", "life:initialise_after_finish", "life:initialise_after_an_abandoned_build", "life:initialise_after_a_rejected_add", "life:initialise_after_finish_of_an_empty_builder", "life:initialise_twice_in_a_row", "life:builder_value_copied_by_assignment_between_builds",
 			"life:origin:new(Builder)", "life:origin:copy by assignment of a zero value", "life:origin:new(Builder) and Initialise()", "life:origin:copy by assignment of an initialised Builder",
+			"routes:lists_given_to_both_routes", "routes:New_rejected_a_bad_list", "routes:New_accepted_a_good_list", "routes:good_lists_with_equal_automata_by_both_routes", "routes:New_of_the_repaired_list_right_after_a_rejected_New_checked",
+			"routes:New_rejected:equal-neighbours", "routes:New_rejected:the-empty-word-twice", "routes:New_rejected:a-prefix-after-its-extension", "routes:New_rejected:decreasing-neighbours", "routes:New_rejected:a_word_repeated_with_other_words_in_between", "routes:New_rejected:lists_with_several_bad_pairs",
+			"routes:New_rejected:first_bad_pair_the-only-pair", "routes:New_rejected:first_bad_pair_at-the-start", "routes:New_rejected:first_bad_pair_in-the-middle", "routes:New_rejected:first_bad_pair_at-the-end",
+			"routes:New_rejected:the-empty-word-twice:nil_then_nil", "routes:New_rejected:the-empty-word-twice:nil_then_\"\"", "routes:New_rejected:the-empty-word-twice:\"\"_then_nil", "routes:New_rejected:the-empty-word-twice:\"\"_then_\"\"",
+			"routes:New_accepted:the_nil_list", "routes:New_accepted:the_empty_non-nil_list", "routes:planted:a word twice in a row", "routes:planted:the empty word twice in front (nil / empty variants)",
+			exhaustiveRoutes5, exhaustiveOneChange7, exhaustiveOneChange15,
 			"exhaustive:all ordered pairs (first build, second build) of the 128 subsets of the 7 words of length<=2 over {a,b} with one Builder (Finish, Initialise, build again)", "exhaustive:all 2^15 subsets of the 15 words of length<=3 over {a,b}"},
 	})
 }
@@ -156,6 +163,13 @@ func shortRepr(w []byte, isNil bool) string {
 // that is never touched again, 1 every word through one reused buffer, 2 the
 // slice is overwritten after Add returned.  init: 0 zero value, 1 Initialise().
 func runHistory(c *engine.Ctx, workload, callKey string, ops []hop, mode, init int) bool {
+	_, ok := runHistoryDawg(c, workload, callKey, ops, mode, init)
+	return ok
+}
+
+// runHistoryDawg is runHistory that also hands out the Dawg the Builder
+// finished (checked in full against the accepted words when ok is true).
+func runHistoryDawg(c *engine.Ctx, workload, callKey string, ops []hop, mode, init int) (*dawg.Dawg, bool) {
 	detailOf := func(step int) map[string]interface{} {
 		o := ops
 		if step >= 0 && step+1 < len(o) {
@@ -175,7 +189,7 @@ func runHistory(c *engine.Ctx, workload, callKey string, ops []hop, mode, init i
 		}
 	}); pi != nil {
 		dawgx.Report(c, nil, pi, "Builder.Initialise", "-", detailOf(-1))
-		return false
+		return nil, false
 	}
 	m := &refdawg.BuilderModel{}
 	buf := make([]byte, 0, 64)
@@ -200,11 +214,11 @@ func runHistory(c *engine.Ctx, workload, callKey string, ops []hop, mode, init i
 		c.Eval(1)
 		if pi != nil {
 			dawgx.Report(c, nil, pi, "Builder.Add", "last="+shortRepr(last, prevNil)+"|add="+shortRepr(o.w, o.isNil), detailOf(step))
-			return false
+			return nil, false
 		}
 		if !bytes.Equal(arg, o.w) {
 			c.Violation("Builder.Add|modified-its-argument", detailOf(step), fmt.Sprintf("%q", arg), fmt.Sprintf("%q", o.w))
-			return false
+			return nil, false
 		}
 		if (err == nil) != wantAccept {
 			kind := "wrongly-accepted"
@@ -228,7 +242,7 @@ func runHistory(c *engine.Ctx, workload, callKey string, ops []hop, mode, init i
 				exp += fmt.Sprintf(" (%q at the time it was added)", last)
 			}
 			c.Violation("Builder.Add|"+kind+"|"+w, detailOf(step), obs+fmt.Sprintf("; Add(%s)", o.String()), exp)
-			return false
+			return nil, false
 		}
 		if wantAccept {
 			c.Obs("adds_accepted", 1)
@@ -262,11 +276,11 @@ func runHistory(c *engine.Ctx, workload, callKey string, ops []hop, mode, init i
 	c.Eval(1)
 	if pi != nil {
 		dawgx.Report(c, nil, pi, "Builder.Finish", witness, det)
-		return false
+		return nil, false
 	}
 	if err != nil || d == nil {
 		c.Violation("Builder.Finish|error|"+witness, det, fmt.Sprintf("err=%v", err), "the Dawg of the accepted words")
-		return false
+		return nil, false
 	}
 	probes := [][]byte{}
 	for _, o := range ops {
@@ -278,14 +292,14 @@ func runHistory(c *engine.Ctx, workload, callKey string, ops []hop, mode, init i
 	f, pi, api := dawgx.FullCheck(c, callKey, d, set, dawgx.CheckOpts{Probes: probes})
 	if f != nil || pi != nil {
 		dawgx.Report(c, f, pi, "after-history:"+api, witness, det)
-		return false
+		return nil, false
 	}
 	c.Obs("histories_finished", 1)
 	c.Obs("histories:"+modeNames[mode], 1)
 	if rejected >= 1 && set.Len() >= 2 {
 		c.NT("hist", mode, init, histString(ops))
 	}
-	return true
+	return d, true
 }
 
 func bs(ss ...string) [][]byte {
@@ -708,6 +722,9 @@ func run(c *engine.Ctx) {
 
 	// 7. Builder life cycles: one Builder used for several Dawgs in a row (life.go)
 	lifeCycles(c)
+
+	// 8. the two construction routes (dawg.New / Builder.Add) on arbitrary lists (routes.go)
+	constructionRoutes(c)
 }
 
 func commaSep(s string) string {
